@@ -383,6 +383,11 @@ func (s *SencBox) EncodeSWNoHdr(sw bits.SliceWriter) error {
 		sw.WriteBytes(s.rawData)
 		return sw.AccError()
 	}
+	if s.SampleCount == 0 && s.readBoxSize > 0 {
+		// A decoded box without samples keeps the bytes found after the sample count: they are part of Size()
+		sw.WriteBytes(s.rawData)
+		return sw.AccError()
+	}
 	perSampleIVSize := s.GetPerSampleIVSize()
 	if perSampleIVSize == 0 && s.Flags&UseSubSampleEncryption == 0 {
 		return sw.AccError() // No per-sample data (sampleCount is not trusted to be small)
